@@ -102,8 +102,8 @@ void br_entry_touch(void *e) { ((session_entry *)e)->last_activity_ts = lltd_mon
 size_t br_st_sizeof(void) { return sizeof(session_table); }
 const void *br_st_raw(void *t) { return t; }
 
-int br_derive_session_event(const void *frame, void *table, const uint8_t *our_mac) {
-    return derive_session_event(frame, (session_table *)table, our_mac);
+int br_derive_session_event(const void *frame, size_t len, void *table, const uint8_t *our_mac) {
+    return derive_session_event(frame, len, (session_table *)table, our_mac);
 }
 
 void br_tick(void *mapping, void *enumeration, void *table,
@@ -169,14 +169,14 @@ static void darwin_tick(br_darwin *d) {
     automata_tick((automata *)d->mapping, (automata *)d->enumeration, (session_table *)d->table, &tick_port);
 }
 void br_darwin_idle_tick(br_darwin *d) { darwin_tick(d); }
-void br_darwin_rx(br_darwin *d, void *frame) {
+void br_darwin_rx(br_darwin *d, void *frame, size_t len) {
     automata *mappingAutomata = (automata *)d->mapping;
     automata *sessionAutomata = (automata *)d->session;
     automata *enumerationAutomata = (automata *)d->enumeration;
     session_table *sessionTable = (session_table *)d->table;
     lltd_demultiplex_header_t *header = (lltd_demultiplex_header_t *)frame;
 
-    int sess_event = derive_session_event(frame, sessionTable, d->mac);
+    int sess_event = derive_session_event(frame, len, sessionTable, d->mac);
 
     if (header->opcode == opcode_discover) {
         lltd_discover_upper_header_t *disc_header = (lltd_discover_upper_header_t *)(header + 1);
